@@ -106,7 +106,7 @@ func c19(tier string) []*explore.Scenario {
 		out = append(out, c19Channel(cp, bound))
 	}
 	out = append(out, c19ChannelDoneCtxRead(1), c19ChannelDoneCtxRead(2), c19ChannelDoneCtxRead(0))
-	out = append(out, c19ChannelCtx(), c19ChannelWriters(1, 2, 2), c19ChannelWriters(2, 3, 2), c19ChannelWriters(1, 3, 1), c19ChannelWriters(0, 2, 1), c19ChannelWriters(4, 2, 1), c19HTTPShapes(), c19HTTPDuplex(), c19HTTPCtx(), c19HTTPWriteCtx(), c19HTTPRaw(), c19HTTPMapper(), c19HTTPResponseLost(), c19HTTPResetAcrossTimeout())
+	out = append(out, c19ChannelCtx(), c19ChannelWriters(1, 2, 2), c19ChannelWriters(2, 3, 2), c19ChannelWriters(1, 3, 1), c19ChannelWriters(0, 2, 1), c19ChannelWriters(4, 2, 1), c19HTTPShapes(), c19HTTPDuplex(), c19HTTPCtx(), c19HTTPWriteCtx(), c19HTTPRaw(), c19HTTPTruncated(), c19HTTPMapper(), c19HTTPResponseLost(), c19HTTPResetAcrossTimeout())
 	for _, pending := range []string{"sender", "reader", "both", "none", "reader-after-abandoned-read", "write-in-flight-at-tick"} {
 		out = append(out, c19HTTPIdle(pending, bound))
 	}
@@ -233,6 +233,76 @@ func c19ChannelWriters(capn, k, bound int) *explore.Scenario {
 			if ok != want || len(out) != want {
 				vsched.Fail(fam+"|delivery", "%d concurrent Writes on a queue of capacity %d: %d reported success, the queue holds %d", k, capn, ok, len(out))
 			}
+		},
+	}
+}
+
+// c19FailingBody delivers a prefix and then fails (a connection that dies mid-request, a read timeout).
+type c19FailingBody struct {
+	data []byte
+	err  error
+}
+
+func (b *c19FailingBody) Read(p []byte) (int, error) {
+	if len(b.data) == 0 {
+		return 0, b.err
+	}
+	n := copy(p, b.data)
+	b.data = b.data[n:]
+	return n, nil
+}
+
+// c19HTTPTruncated: a POST whose body cannot be read to its end - every prefix of four encoded
+// envelopes followed by a read error (protobuf has no end marker: many prefixes decode to a
+// different, well-formed envelope): rejected with 400, nothing delivered to any Read.
+func c19HTTPTruncated() *explore.Scenario {
+	fam := "C19/http"
+	return &explore.Scenario{
+		Name: "C19/http/truncated-bodies", Family: fam, Prop: "C19", Once: true, MaxSteps: 40000000,
+		Run: func() {
+			delivered := 0
+			goh := goat.NewGoatOverHttp(func(id string, rw goat.RpcReadWriter) {
+				vsched.GoNamed("reader-"+id, func() {
+					for {
+						if _, err := rw.Read(context.Background()); err != nil {
+							return
+						}
+						delivered++
+					}
+				})
+			}, func(s string) (string, error) { return s, nil }, goat.WithClock(env.NewClock()))
+			var bases []*env.Rpc
+			for _, v := range c19Values(false) {
+				if v.GetHeader().GetSource() != "" && (v.GetBody() != nil || v.GetTrailer() != nil) {
+					bases = append(bases, v) // (a complete body must be accepted: it needs a header with a source)
+				}
+			}
+			bases = []*env.Rpc{bases[0], bases[len(bases)/3], bases[2*len(bases)/3], bases[len(bases)-1]}
+			n := 0
+			for _, base := range bases {
+				enc, _ := proto.Marshal(base)
+				for cut := 0; cut <= len(enc); cut++ {
+					for _, rerr := range []error{io.ErrUnexpectedEOF, errors.New("read tcp: i/o timeout"), context.Canceled} {
+						n++
+						before := delivered
+						code := post(goh, &c19FailingBody{data: append([]byte{}, enc[:cut]...), err: rerr})
+						vsched.Quiesce()
+						if code != http.StatusBadRequest || delivered != before {
+							vsched.Fail(fam+"|truncated-accepted", "a POST whose body failed with %q after %d of %d bytes was answered %d and %d envelopes were delivered", rerr, cut, len(enc), code, delivered-before)
+						}
+					}
+				}
+				// the whole body, read without an error, is the envelope
+				before := delivered
+				if code := post(goh, bytes.NewReader(enc)); code != http.StatusOK {
+					vsched.Fail(fam+"|valid-rejected", "the complete body was answered %d", code)
+				}
+				vsched.Quiesce()
+				if delivered != before+1 {
+					vsched.Fail(fam+"|altered-or-reordered", "the complete body delivered %d envelopes", delivered-before)
+				}
+			}
+			vsched.Count("inputs", int64(n))
 		},
 	}
 }
